@@ -219,8 +219,8 @@ func RunC04(tier, replay string) int {
 					if isBodyParam(m.op, name) {
 						sch := bodySchema(m.op, name)
 						rootJ := J{"definitions": m.op.Defs}
-						w = nullArraysAbsent(rewriteDoc(sch, rootJ, w, rewriteOpts{dropUndeclared: true, dropZeroAll: true}))
-						g = nullArraysAbsent(rewriteDoc(sch, rootJ, g, rewriteOpts{dropUndeclared: true, dropZeroAll: true}))
+						w = nullArraysAbsent(rewriteDoc(sch, rootJ, w, rewriteOpts{dropUndeclared: true, dropZeroAll: true, nullAsEmpty: true}))
+						g = nullArraysAbsent(rewriteDoc(sch, rootJ, g, rewriteOpts{dropUndeclared: true, dropZeroAll: true, nullAsEmpty: true}))
 						if isZeroJSON(w) && isZeroJSON(g) {
 							continue
 						}
